@@ -73,7 +73,7 @@ func mkVal(t int, neg bool, mag uint64) dyn.Val {
 	switch dyn.Types[t].Kind {
 	case dyn.Signed:
 		if neg {
-			return dyn.I(-int64(mag - 1) - 1)
+			return dyn.I(-int64(mag-1) - 1)
 		}
 		return dyn.I(int64(mag))
 	case dyn.Unsigned:
